@@ -1,0 +1,32 @@
+//go:build verif
+
+package server
+
+import "github.com/gopcua/opcua/ua"
+
+// VerifRefs returns the node's raw reference list (ground truth for the
+// browse check of the verification harness).
+func (n *Node) VerifRefs() []*ua.ReferenceDescription {
+	return append([]*ua.ReferenceDescription(nil), n.refs...)
+}
+
+// VerifNodes returns all nodes of the namespace.
+func (ns *NodeNameSpace) VerifNodes() []*Node {
+	ns.mu.RLock()
+	defer ns.mu.RUnlock()
+	return append([]*Node(nil), ns.nodes...)
+}
+
+// VerifSessionCount returns the number of sessions the server knows.
+func (s *Server) VerifSessionCount() int {
+	s.sb.mu.Lock()
+	defer s.sb.mu.Unlock()
+	return len(s.sb.s)
+}
+
+// VerifChannelCount returns the number of secure channels the server tracks.
+func (s *Server) VerifChannelCount() int {
+	s.cb.mu.RLock()
+	defer s.cb.mu.RUnlock()
+	return len(s.cb.s)
+}
